@@ -24,9 +24,9 @@ use cacache_harness::tokens::*;
 compile_error!("enable at most one of the features rt-async-std / rt-tokio");
 
 #[cfg(feature = "rt-async-std")]
-use futures::io::{AsyncReadExt, AsyncWriteExt};
+use futures::io::{AsyncReadExt, AsyncWrite, AsyncWriteExt};
 #[cfg(feature = "rt-tokio")]
-use tokio::io::{AsyncReadExt, AsyncWriteExt};
+use tokio::io::{AsyncReadExt, AsyncWrite, AsyncWriteExt};
 
 const HAS_RT: bool = cfg!(any(feature = "rt-async-std", feature = "rt-tokio"));
 
@@ -707,6 +707,86 @@ impl St {
                 Ok(match (&key, clock) {
                     (Some(k), true) => clocked(&cache, k, run),
                     _ => run(),
+                })
+            }
+            // `wcommit_cd W DIR`: commit while the process' working directory is DIR.  The cache directory was handed to
+            // the library as a RELATIVE path when the writer was opened, so this is "the caller changed directory between
+            // open and commit": wherever the entry ends up, its index record and its content must be in ONE cache
+            "wcommit_cd" => {
+                need(a, 2)?;
+                let id = parse_id(a[0], 'W')?;
+                let dir = parse_path(a[1])?;
+                let h = take_handle(&mut self.writers, &id)?;
+                let WH {
+                    k,
+                    cache,
+                    key,
+                    clock,
+                    ..
+                } = h;
+                let scratch = self.scratch.clone();
+                let run = move || {
+                    if std::env::set_current_dir(format!("{scratch}/{dir}")).is_err() {
+                        return "err io notfound".to_string();
+                    }
+                    let r = guard(move || match k {
+                        WK::S(w) => res_sri(w.commit()),
+                        #[cfg(any(feature = "rt-async-std", feature = "rt-tokio"))]
+                        WK::A(w) => res_sri(rt::block_on(async move { w.commit().await })),
+                    });
+                    let _ = std::env::set_current_dir(&scratch);
+                    r
+                };
+                let there = format!("{}/{}", a[1], cache);
+                Ok(match (&key, clock) {
+                    (Some(k), true) => clocked(&there, k, run),
+                    _ => run(),
+                })
+            }
+            // `wwrite_grow W D1 D2`: an async `write` of D1 is polled once; if it is still pending the caller - who has
+            // gathered more data meanwhile, as `tokio::io::copy` does - polls again with the LONGER slice D1 ++ D2 until
+            // ready, and hands whatever was not acknowledged to `write_all`.  `ok <n of the polled write> <pending 0|1>`.
+            // Everything of D1 ++ D2 has been accepted afterwards.  Sync writers: badarg.
+            "wwrite_grow" => {
+                need(a, 3)?;
+                let id = parse_id(a[0], 'W')?;
+                let d1 = parse_bytes(a[1])?;
+                let d2 = parse_bytes(a[2])?;
+                let mut all = d1.clone();
+                all.extend_from_slice(&d2);
+                with_handle(&mut self.writers, &id, |h| match &mut h.k {
+                    WK::S(_) => {
+                        let _ = (&d1, &all);
+                        Bad::Arg.line().to_string()
+                    }
+                    #[cfg(any(feature = "rt-async-std", feature = "rt-tokio"))]
+                    WK::A(w) => rt::block_on(async {
+                        let mut first = true;
+                        let mut was_pending = 0;
+                        let r = {
+                            let mut w = std::pin::Pin::new(&mut *w);
+                            std::future::poll_fn(|cx| {
+                                let buf: &[u8] = if first { &d1 } else { &all };
+                                first = false;
+                                let p = w.as_mut().poll_write(cx, buf);
+                                if p.is_pending() {
+                                    was_pending = 1;
+                                }
+                                p
+                            })
+                            .await
+                        };
+                        match r {
+                            Ok(n) => {
+                                let n = n.min(all.len());
+                                match w.write_all(&all[n..]).await {
+                                    Ok(()) => format!("ok {n} {was_pending}"),
+                                    Err(e) => stdio_err(&e),
+                                }
+                            }
+                            Err(e) => stdio_err(&e),
+                        }
+                    }),
                 })
             }
             "wdrop" => {
